@@ -710,4 +710,300 @@ theorem tdiv_r_ok {s : St} (h : Inv s) {r n d : Nat} (hr : r < s.nv) (hn : n < s
     · rw [v6 i (by rw [nv5']; exact hi), vo5 i (by rw [x24.nv, nv2]; exact hi) hir,
         x24.value i2 (by rw [nv2]; exact hi), val2 i hi]
 
+/-! ### floor / ceiling wrappers, mpz_mod -/
+
+theorem tempDivisor_spec {s : St} (h : Inv s) {d : Nat} (hd : d < s.nv) (copied : Bool) :
+    ∃ dv s0, tempDivisor copied d s = .ok (dv, s0) ∧ Inv s0 ∧ dv < s0.nv ∧ s0.value dv = s.value d ∧
+      (∀ i, i < s.nv → s0.value i = s.value i) ∧
+      (copied = true → dv = s.nv ∧ s0.nv = s.nv + 1) ∧ (copied = false → dv = d ∧ s0 = s) := by
+  cases copied
+  · exact ⟨d, s, by simp [tempDivisor, pure, Except.pure], h, hd, rfl, fun _ _ => rfl, by simp, by simp⟩
+  · obtain ⟨e1, i1, n1, vo1, a1, vn1⟩ := tmpInit_spec h (s.size d).natAbs
+    have hd1 : d < (s.tmpInit (s.size d).natAbs).2.nv := by rw [n1]; omega
+    have hw1 : s.nv < (s.tmpInit (s.size d).natAbs).2.nv := by rw [n1]; omega
+    obtain ⟨s0, e0, i0, n0, vw0, vo0⟩ := mpz_set_ok i1 hw1 hd1
+    refine ⟨s.nv, s0, ?_, i0, by rw [n0, n1]; omega, by rw [vw0, (vo1 d hd).1],
+      fun i hi => by rw [vo0 i (by rw [n1]; omega) (by omega), (vo1 i hi).1], fun _ => ⟨rfl, by rw [n0, n1]⟩, by simp⟩
+    simp only [tempDivisor, if_true, bind, Except.bind, pure, Except.pure, e1]
+    rw [e0]
+
+/-- the size field of a variable is determined by its value -/
+theorem size_of_value {s s' : St} (h : Inv s) (h' : Inv s') {i j : Nat} (hi : i < s.nv) (hj : j < s'.nv)
+    (e : s'.value j = s.value i) : s'.size j = s.size i := by
+  rw [h.norm i hi, h'.norm j hj, e]
+
+def cfQ (ceil : Bool) (x y : Int) : Int := if ceil then DivZ.cdivQ x y else DivZ.fdivQ x y
+def cfR (ceil : Bool) (x y : Int) : Int := if ceil then DivZ.cdivR x y else DivZ.fdivR x y
+
+theorem cfQ_eq (ceil : Bool) {x y : Int} (hy : y ≠ 0) :
+    cfQ ceil x y = if (if ceil then (x < 0 ↔ y < 0) else ¬ (x < 0 ↔ y < 0)) ∧ Int.tmod x y ≠ 0
+      then (if ceil then Int.tdiv x y + 1 else Int.tdiv x y - 1) else Int.tdiv x y := by
+  cases ceil
+  · simp only [cfQ, Bool.false_eq_true, if_false, DivZ.fdivQ]; exact DivZ.fdiv_from_tdiv hy
+  · simp only [cfQ, if_true]; exact DivZ.cdivQ_from_tdiv hy
+
+theorem cfR_eq (ceil : Bool) {x y : Int} (hy : y ≠ 0) :
+    cfR ceil x y = if (if ceil then (x < 0 ↔ y < 0) else ¬ (x < 0 ↔ y < 0)) ∧ Int.tmod x y ≠ 0
+      then (if ceil then Int.tmod x y - y else Int.tmod x y + y) else Int.tmod x y := by
+  cases ceil
+  · simp only [cfR, Bool.false_eq_true, if_false, DivZ.fdivR]; exact DivZ.fmod_from_tmod hy
+  · simp only [cfR, if_true]; exact DivZ.cdivR_from_tmod hy
+
+theorem cfdiv_qr_ok (ceil : Bool) {s : St} (h : Inv s) {q r n d : Nat} (hq : q < s.nv) (hr : r < s.nv) (hn : n < s.nv)
+    (hd : d < s.nv) (hqr : q ≠ r) (hd0 : s.value d ≠ 0) :
+    ∃ s', cfdiv_qrV .c ceil q r n d s = .ok s' ∧ Inv s' ∧ s'.nv = s.nv ∧
+      s'.value q = cfQ ceil (s.value n) (s.value d) ∧ s'.value r = cfR ceil (s.value n) (s.value d) ∧
+      ∀ i, i < s.nv → i ≠ q → i ≠ r → s'.value i = s.value i := by
+  unfold cfdiv_qrV
+  simp only [bind, Except.bind, pure, Except.pure]
+  generalize hcp : decide (Variant.c.fdivCopy = true ∧ (q = d ∨ r = d)) = copied
+  obtain ⟨dv, s0, e0, i0, hdv0, vdv0, vo0, ct, cf⟩ := tempDivisor_spec h hd copied
+  rw [e0]; simp only []
+  have nv0 : s.nv ≤ s0.nv := by
+    cases copied
+    · rw [(cf rfl).2]
+    · rw [(ct rfl).2]; omega
+  have hdvq : dv ≠ q ∧ dv ≠ r := by
+    cases copied
+    · rw [(cf rfl).1]
+      have h' : ¬ (q = d ∨ r = d) := by simpa [Variant.c] using of_decide_eq_false hcp
+      exact ⟨fun e => h' (Or.inl e.symm), fun e => h' (Or.inr e.symm)⟩
+    · rw [(ct rfl).1]; omega
+  obtain ⟨s1, e1, i1, n1, vq1, vr1, vo1⟩ := tdiv_qr_ok i0 (q := q) (r := r) (n := n) (d := dv)
+    (by omega) (by omega) (by omega) hdv0 hqr (by rw [vdv0]; exact hd0)
+  have e1' : tdiv_qrV Variant.c q r n dv s0 = .ok s1 := e1
+  rw [e1']; simp only []
+  rw [vo0 n hn, vdv0] at vq1 vr1
+  have hsn : s0.size n = s.size n := size_of_value h i0 hn (by omega) (vo0 n hn)
+  rw [hsn]
+  have vdv1 : s1.value dv = s.value d := by rw [vo1 dv hdv0 hdvq.1 hdvq.2, vdv0]
+  have hadj : ((if ceil = true then decide (sameSign (s.size n) (s.size d)) else !decide (sameSign (s.size n) (s.size d))) = true ∧ s1.size r ≠ 0)
+      ↔ ((if ceil then (s.value n < 0 ↔ s.value d < 0) else ¬ (s.value n < 0 ↔ s.value d < 0)) ∧ Int.tmod (s.value n) (s.value d) ≠ 0) := by
+    have e2 : s1.size r ≠ 0 ↔ Int.tmod (s.value n) (s.value d) ≠ 0 := by
+      rw [Ne, i1.size_eq_zero_iff (by omega), vr1]; rfl
+    have e3 := sameSign_sizes h hn hd
+    cases ceil <;> simp [e2, e3]
+  have hfin : ∀ s3, Inv s3 → s3.nv = s0.nv → (∀ i, i < s0.nv → s3.value i = (if i = q then cfQ ceil (s.value n) (s.value d) else if i = r then cfR ceil (s.value n) (s.value d) else s0.value i)) →
+      ∃ s', (Except.ok (if copied = true then s3.tmpDone else s3) : R St) = Except.ok s' ∧ Inv s' ∧ s'.nv = s.nv ∧
+        s'.value q = cfQ ceil (s.value n) (s.value d) ∧ s'.value r = cfR ceil (s.value n) (s.value d) ∧
+        ∀ i, i < s.nv → i ≠ q → i ≠ r → s'.value i = s.value i := by
+    intro s3 i3 n3 v3
+    cases copied
+    · have := (cf rfl).2
+      refine ⟨s3, by simp, i3, by rw [n3, this], ?_, ?_, fun i hi hiq hir => ?_⟩
+      · rw [v3 q (by omega)]; simp
+      · rw [v3 r (by omega)]; simp [Ne.symm hqr]
+      · rw [v3 i (by omega)]; simp [hiq, hir, vo0 i hi]
+    · have hnv := (ct rfl).2
+      obtain ⟨i4, n4, v4⟩ := tmpDone_spec i3 s.nv (by rw [n3, hnv])
+      refine ⟨s3.tmpDone, by simp, i4, n4, ?_, ?_, fun i hi hiq hir => ?_⟩
+      · rw [v4 q hq, v3 q (by omega)]; simp
+      · rw [v4 r hr, v3 r (by omega)]; simp [Ne.symm hqr]
+      · rw [v4 i hi, v3 i (by omega)]; simp [hiq, hir, vo0 i hi]
+  by_cases hc : (if ceil then (s.value n < 0 ↔ s.value d < 0) else ¬ (s.value n < 0 ↔ s.value d < 0)) ∧ Int.tmod (s.value n) (s.value d) ≠ 0
+  · rw [if_pos (hadj.mpr hc)]
+    obtain ⟨s2, e2, i2, n2, vq2, vo2⟩ := mpz_aors_ui_ok i1 (w := q) (u := q) (by omega) (by omega) (!ceil) 1 (by rw [B_eq]; decide)
+    rw [show mpz_aors_ui (!ceil) q q 1 s1 = .ok s2 from e2]; simp only []
+    obtain ⟨s3, e3, i3, n3, vr3, vo3⟩ := mpz_aors_ok i2 (w := r) (u := r) (v := dv) (by omega) (by omega) (by omega) ceil
+    rw [e3]; simp only []
+    apply hfin s3 i3 (by omega)
+    intro i hi
+    by_cases hiq : i = q
+    · rw [if_pos hiq, hiq, vo3 q (by omega) hqr, vq2, vq1, cfQ_eq ceil hd0, if_pos hc]
+      cases ceil <;> simp [DivZ.tdivQ]
+    · rw [if_neg hiq]
+      by_cases hir : i = r
+      · rw [if_pos hir, hir, vr3, vo2 r (by omega) (Ne.symm hqr), vo2 dv (by omega) hdvq.1, vr1, vdv1, cfR_eq ceil hd0, if_pos hc]
+        cases ceil <;> simp [DivZ.tdivR]
+      · rw [if_neg hir, vo3 i (by omega) hir, vo2 i (by omega) hiq, vo1 i hi hiq hir]
+  · rw [if_neg (fun e => hc (hadj.mp e))]
+    apply hfin s1 i1 n1
+    intro i hi
+    by_cases hiq : i = q
+    · rw [if_pos hiq, hiq, vq1, cfQ_eq ceil hd0, if_neg hc]; rfl
+    · rw [if_neg hiq]
+      by_cases hir : i = r
+      · rw [if_pos hir, hir, vr1, cfR_eq ceil hd0, if_neg hc]; rfl
+      · rw [if_neg hir, vo1 i hi hiq hir]
+
+
+theorem cfdiv_q_ok (ceil : Bool) {s : St} (h : Inv s) {q n d : Nat} (hq : q < s.nv) (hn : n < s.nv)
+    (hd : d < s.nv) (hd0 : s.value d ≠ 0) :
+    ∃ s', cfdiv_qV .c ceil q n d s = .ok s' ∧ Res s s' q (cfQ ceil (s.value n) (s.value d)) := by
+  unfold cfdiv_qV
+  simp only [bind, Except.bind, pure, Except.pure]
+  obtain ⟨e0, i0, n0, vo0, a0, vn0⟩ := tmpInit_spec h (s.size d).natAbs
+  rw [e0]
+  set s0 := (s.tmpInit (s.size d).natAbs).2 with hs0
+  obtain ⟨s1, e1, i1, n1, vq1, vr1, vo1⟩ := tdiv_qr_ok i0 (q := q) (r := s.nv) (n := n) (d := d)
+    (by omega) (by omega) (by omega) (by omega) (by omega) (by rw [(vo0 d hd).1]; exact hd0)
+  have e1' : tdiv_qrV Variant.c q s.nv n d s0 = .ok s1 := e1
+  rw [e1']; simp only []
+  rw [(vo0 n hn).1, (vo0 d hd).1] at vq1 vr1
+  have hadj : ((if ceil = true then decide (sameSign (s.size d) (s.size n)) else !decide (sameSign (s.size d) (s.size n))) = true ∧ s1.size s.nv ≠ 0)
+      ↔ ((if ceil then (s.value n < 0 ↔ s.value d < 0) else ¬ (s.value n < 0 ↔ s.value d < 0)) ∧ Int.tmod (s.value n) (s.value d) ≠ 0) := by
+    have e2 : s1.size s.nv ≠ 0 ↔ Int.tmod (s.value n) (s.value d) ≠ 0 := by
+      rw [Ne, i1.size_eq_zero_iff (by omega), vr1]; rfl
+    have e3 := sameSign_sizes h hd hn
+    have e4 : (s.value d < 0 ↔ s.value n < 0) ↔ (s.value n < 0 ↔ s.value d < 0) := by tauto
+    cases ceil <;> simp [e2, e3, e4]
+  have hfin : ∀ s3, Inv s3 → s3.nv = s0.nv → s3.value q = cfQ ceil (s.value n) (s.value d) →
+      (∀ i, i < s.nv → i ≠ q → s3.value i = s.value i) →
+      ∃ s', (Except.ok s3.tmpDone : R St) = Except.ok s' ∧ Res s s' q (cfQ ceil (s.value n) (s.value d)) := by
+    intro s3 i3 n3 vq3 vo3
+    obtain ⟨i4, n4, v4⟩ := tmpDone_spec i3 s.nv (by rw [n3, n0])
+    exact ⟨_, rfl, i4, n4, by rw [v4 q hq, vq3], fun i hi hiq => by rw [v4 i hi, vo3 i hi hiq]⟩
+  by_cases hc : (if ceil then (s.value n < 0 ↔ s.value d < 0) else ¬ (s.value n < 0 ↔ s.value d < 0)) ∧ Int.tmod (s.value n) (s.value d) ≠ 0
+  · rw [if_pos (hadj.mpr hc)]
+    obtain ⟨s2, e2, i2, n2, vq2, vo2⟩ := mpz_aors_ui_ok i1 (w := q) (u := q) (by omega) (by omega) (!ceil) 1 (by rw [B_eq]; decide)
+    rw [show mpz_aors_ui (!ceil) q q 1 s1 = .ok s2 from e2]; simp only []
+    apply hfin s2 i2 (by omega)
+    · rw [vq2, vq1, cfQ_eq ceil hd0, if_pos hc]
+      cases ceil <;> simp [DivZ.tdivQ]
+    · intro i hi hiq
+      rw [vo2 i (by omega) hiq, vo1 i (by omega) hiq (by omega), (vo0 i hi).1]
+  · rw [if_neg (fun e => hc (hadj.mp e))]
+    apply hfin s1 i1 n1
+    · rw [vq1, cfQ_eq ceil hd0, if_neg hc]; rfl
+    · intro i hi hiq
+      rw [vo1 i (by omega) hiq (by omega), (vo0 i hi).1]
+
+theorem cfdiv_r_ok (ceil : Bool) {s : St} (h : Inv s) {r n d : Nat} (hr : r < s.nv) (hn : n < s.nv)
+    (hd : d < s.nv) (hd0 : s.value d ≠ 0) :
+    ∃ s', cfdiv_rV .c ceil r n d s = .ok s' ∧ Res s s' r (cfR ceil (s.value n) (s.value d)) := by
+  unfold cfdiv_rV
+  simp only [bind, Except.bind, pure, Except.pure]
+  generalize hcp : decide (Variant.c.fdivCopy = true ∧ r = d) = copied
+  obtain ⟨dv, s0, e0, i0, hdv0, vdv0, vo0, ct, cf⟩ := tempDivisor_spec h hd copied
+  rw [e0]; simp only []
+  have nv0 : s.nv ≤ s0.nv := by
+    cases copied
+    · rw [(cf rfl).2]
+    · rw [(ct rfl).2]; omega
+  have hdvr : dv ≠ r := by
+    cases copied
+    · rw [(cf rfl).1]
+      have h' : ¬ (r = d) := by simpa [Variant.c] using of_decide_eq_false hcp
+      exact fun e => h' e.symm
+    · rw [(ct rfl).1]; omega
+  obtain ⟨s1, e1, i1, n1, vr1, vo1⟩ := tdiv_r_ok i0 (r := r) (n := n) (d := dv)
+    (by omega) (by omega) hdv0 (by rw [vdv0]; exact hd0)
+  have e1' : tdiv_rV Variant.c r n dv s0 = .ok s1 := e1
+  rw [e1']; simp only []
+  rw [vo0 n hn, vdv0] at vr1
+  have vdv1 : s1.value dv = s.value d := by rw [vo1 dv hdv0 hdvr, vdv0]
+  have hadj : ((if ceil = true then decide (sameSign (s.size d) (s1.size n)) else !decide (sameSign (s.size d) (s1.size n))) = true ∧ s1.size r ≠ 0)
+      ↔ ((if ceil then (s.value n < 0 ↔ s.value d < 0) else ¬ (s.value n < 0 ↔ s.value d < 0)) ∧ Int.tmod (s.value n) (s.value d) ≠ 0) := by
+    have e2 : s1.size r ≠ 0 ↔ Int.tmod (s.value n) (s.value d) ≠ 0 := by
+      rw [Ne, i1.size_eq_zero_iff (by omega), vr1]; rfl
+    have e3 : Int.tmod (s.value n) (s.value d) ≠ 0 → (sameSign (s.size d) (s1.size n) ↔ (s.value n < 0 ↔ s.value d < 0)) := by
+      intro hne
+      unfold sameSign
+      rw [h.size_neg_iff hd, i1.size_neg_iff (by omega)]
+      by_cases hnr : n = r
+      · rw [hnr, vr1, ← hnr]
+        have := DivZ.tmod_lt_zero_iff hne
+        unfold DivZ.tdivR; tauto
+      · rw [vo1 n (by omega) hnr, vo0 n hn]; tauto
+    by_cases hne : Int.tmod (s.value n) (s.value d) = 0
+    · simp [e2, hne]
+    · have e3' := e3 hne
+      cases ceil <;> simp [e2, e3', hne]
+  have hfin : ∀ s3, Inv s3 → s3.nv = s0.nv → s3.value r = cfR ceil (s.value n) (s.value d) →
+      (∀ i, i < s.nv → i ≠ r → s3.value i = s.value i) →
+      ∃ s', (Except.ok (if copied = true then s3.tmpDone else s3) : R St) = Except.ok s' ∧ Res s s' r (cfR ceil (s.value n) (s.value d)) := by
+    intro s3 i3 n3 vr3 vo3
+    cases copied
+    · have := (cf rfl).2
+      exact ⟨s3, by simp, i3, by rw [n3, this], vr3, vo3⟩
+    · have hnv := (ct rfl).2
+      obtain ⟨i4, n4, v4⟩ := tmpDone_spec i3 s.nv (by rw [n3, hnv])
+      exact ⟨s3.tmpDone, by simp, i4, n4, by rw [v4 r hr, vr3], fun i hi hir => by rw [v4 i hi, vo3 i hi hir]⟩
+  by_cases hc : (if ceil then (s.value n < 0 ↔ s.value d < 0) else ¬ (s.value n < 0 ↔ s.value d < 0)) ∧ Int.tmod (s.value n) (s.value d) ≠ 0
+  · rw [if_pos (hadj.mpr hc)]
+    obtain ⟨s3, e3, i3, n3, vr3, vo3⟩ := mpz_aors_ok i1 (w := r) (u := r) (v := dv) (by omega) (by omega) (by omega) ceil
+    rw [e3]; simp only []
+    apply hfin s3 i3 (by omega)
+    · rw [vr3, vr1, vdv1, cfR_eq ceil hd0, if_pos hc]
+      cases ceil <;> simp [DivZ.tdivR]
+    · intro i hi hir
+      rw [vo3 i (by omega) hir, vo1 i (by omega) hir, vo0 i hi]
+  · rw [if_neg (fun e => hc (hadj.mp e))]
+    apply hfin s1 i1 n1
+    · rw [vr1, cfR_eq ceil hd0, if_neg hc]; rfl
+    · intro i hi hir
+      rw [vo1 i (by omega) hir, vo0 i hi]
+
+theorem mod_ok {s : St} (h : Inv s) {r n d : Nat} (hr : r < s.nv) (hn : n < s.nv)
+    (hd : d < s.nv) (hd0 : s.value d ≠ 0) :
+    ∃ s', mod r n d s = .ok s' ∧ Res s s' r (DivZ.modS (s.value n) (s.value d)) := by
+  unfold mod modV
+  simp only [bind, Except.bind, pure, Except.pure]
+  generalize hcp : decide (Variant.c.fdivCopy = true ∧ r = d) = copied
+  obtain ⟨dv, s0, e0, i0, hdv0, vdv0, vo0, ct, cf⟩ := tempDivisor_spec h hd copied
+  rw [e0]; simp only []
+  have nv0 : s.nv ≤ s0.nv := by
+    cases copied
+    · rw [(cf rfl).2]
+    · rw [(ct rfl).2]; omega
+  have hdvr : dv ≠ r := by
+    cases copied
+    · rw [(cf rfl).1]
+      have h' : ¬ (r = d) := by simpa [Variant.c] using of_decide_eq_false hcp
+      exact fun e => h' e.symm
+    · rw [(ct rfl).1]; omega
+  obtain ⟨s1, e1, i1, n1, vr1, vo1⟩ := tdiv_r_ok i0 (r := r) (n := n) (d := dv)
+    (by omega) (by omega) hdv0 (by rw [vdv0]; exact hd0)
+  have e1' : tdiv_rV Variant.c r n dv s0 = .ok s1 := e1
+  rw [e1']; simp only []
+  rw [vo0 n hn, vdv0] at vr1
+  have vdv1 : s1.value dv = s.value d := by rw [vo1 dv hdv0 hdvr, vdv0]
+  have e2 : s1.size r ≠ 0 ↔ Int.tmod (s.value n) (s.value d) ≠ 0 := by
+    rw [Ne, i1.size_eq_zero_iff (by omega), vr1]; rfl
+  have e3 : Int.tmod (s.value n) (s.value d) ≠ 0 → (s1.size n < 0 ↔ s.value n < 0) := by
+    intro hne
+    rw [i1.size_neg_iff (by omega)]
+    by_cases hnr : n = r
+    · rw [hnr, vr1, ← hnr]; exact DivZ.tmod_lt_zero_iff hne
+    · rw [vo1 n (by omega) hnr, vo0 n hn]
+  have e4 : s1.size dv < 0 ↔ s.value d < 0 := by rw [i1.size_neg_iff (by omega), vdv1]
+  have hspec := DivZ.emod_from_tmod (s.value n) (s.value d)
+  have hfin : ∀ s3, Inv s3 → s3.nv = s0.nv → s3.value r = DivZ.modS (s.value n) (s.value d) →
+      (∀ i, i < s.nv → i ≠ r → s3.value i = s.value i) →
+      ∃ s', (Except.ok (if copied = true then s3.tmpDone else s3) : R St) = Except.ok s' ∧ Res s s' r (DivZ.modS (s.value n) (s.value d)) := by
+    intro s3 i3 n3 vr3 vo3
+    cases copied
+    · have := (cf rfl).2
+      exact ⟨s3, by simp, i3, by rw [n3, this], vr3, vo3⟩
+    · have hnv := (ct rfl).2
+      obtain ⟨i4, n4, v4⟩ := tmpDone_spec i3 s.nv (by rw [n3, hnv])
+      exact ⟨s3.tmpDone, by simp, i4, n4, by rw [v4 r hr, vr3], fun i hi hir => by rw [v4 i hi, vo3 i hi hir]⟩
+  have hsame : ∀ s3, s3 = s1 → (∀ i, i < s.nv → i ≠ r → s3.value i = s.value i) := fun s3 e i hi hir => by
+    rw [e, vo1 i (by omega) hir, vo0 i hi]
+  by_cases hne : Int.tmod (s.value n) (s.value d) = 0
+  · rw [if_neg (fun e => (e2.mp e) hne)]
+    apply hfin s1 i1 n1
+    · rw [vr1]; unfold DivZ.modS; rw [hspec]; simp [hne, DivZ.tdivR]
+    · exact hsame s1 rfl
+  · rw [if_pos (e2.mpr hne)]
+    by_cases hneg : s.value n < 0
+    · rw [if_pos ((e3 hne).mpr hneg)]
+      by_cases hdneg : s.value d < 0
+      · rw [if_pos (e4.mpr hdneg)]
+        obtain ⟨s3, e3', i3, n3, vr3, vo3⟩ := mpz_aors_ok i1 (w := r) (u := r) (v := dv) (by omega) (by omega) (by omega) true
+        rw [e3']
+        apply hfin s3 i3 (by omega)
+        · rw [vr3, vr1, vdv1]; unfold DivZ.modS; rw [hspec]; simp [hne, hneg, hdneg, DivZ.tdivR]
+        · intro i hi hir; rw [vo3 i (by omega) hir]; exact hsame s1 rfl i hi hir
+      · rw [if_neg (fun e => hdneg (e4.mp e))]
+        obtain ⟨s3, e3', i3, n3, vr3, vo3⟩ := mpz_aors_ok i1 (w := r) (u := r) (v := dv) (by omega) (by omega) (by omega) false
+        rw [e3']
+        apply hfin s3 i3 (by omega)
+        · rw [vr3, vr1, vdv1]; unfold DivZ.modS; rw [hspec]; simp [hne, hneg, hdneg, DivZ.tdivR]
+        · intro i hi hir; rw [vo3 i (by omega) hir]; exact hsame s1 rfl i hi hir
+    · rw [if_neg (fun e => hneg ((e3 hne).mp e))]
+      apply hfin s1 i1 n1
+      · rw [vr1]; unfold DivZ.modS; rw [hspec]; simp [hne, hneg, DivZ.tdivR]
+      · exact hsame s1 rfl
+
 end Mpir.AliasMem
